@@ -21,6 +21,9 @@ from engine.facts import walk, call_args, member_call_object, expr_str
 from rules.null_rules import short, occurrence_tag, _producer_in
 
 ASSERT_MACROS = ("ABG_ASSERT", "assert")
+# value-preserving wrappers: the result is the input value in another representation
+WRAPPERS = ("build_sptr", "unescape_xml_string", "escape_xml_string", "atoi", "atoll", "strtoull", "strtoll",
+            "strtoul", "strtol", "string", "basic_string")
 
 
 def assertion_sites(f):
@@ -68,37 +71,79 @@ def local_defs(f):
                 l = strip_casts(n["c"][0])
                 if l is not None and l["k"] == "DeclRefExpr":
                     d.setdefault(l.get("d"), []).append(n["c"][1])
+            elif n["k"] == "CallExpr":
+                # locals filled through an out-parameter of a read_xxx(xml node, out&) helper
+                cd = f.decl(n)
+                if cd is not None and cd["n"].startswith("read_"):
+                    pts = cd.get("pt", [])
+                    takes_node = any("_xmlNode" in (f.unit.type(t) or {}).get("c", "") for t in pts)
+                    if takes_node:
+                        for i, a in enumerate(call_args(n)):
+                            pt = f.unit.type(pts[i]) if i < len(pts) else None
+                            a0 = strip_casts(a)
+                            if pt is not None and pt.get("ref") and not pt.get("const") and a0 is not None \
+                                    and a0["k"] == "DeclRefExpr":
+                                d.setdefault(a0.get("d"), []).append(("OUT", cd["n"]))
         f._localdefs = d
     return d
 
 
-def derived_from(f, e, pred, depth=0):
-    """name of the callee satisfying pred from which e derives in at most one local-variable step"""
+def derived_from(f, e, pred, depth=0, vsteps=0):
+    """name of the callee satisfying pred from which e derives through value-preserving wrappers and
+    at most two local-variable steps"""
     e = strip_casts(e)
-    if e is None:
+    if e is None or depth > 12:
         return None
     pn = _producer_in(f, e, pred)
     if pn:
         return pn
-    if e["k"] in ("CXXConstructExpr", "CXXFunctionalCastExpr", "CXXMemberCallExpr") and e.get("c") and depth < 3:
+    if e["k"] in ("CXXConstructExpr", "CXXFunctionalCastExpr", "CXXMemberCallExpr", "CXXTemporaryObjectExpr") \
+            and e.get("c"):
         # conversions such as string(reinterpret_cast<char*>(x.get())), x.get()
+        if e["k"] == "CXXMemberCallExpr" and (f.decl(e) or {}).get("n") not in ("get", "c_str", "str", "operator bool") \
+                and not (f.decl(e) or {}).get("n", "").startswith("operator "):
+            return None
         for c in e["c"]:
-            r = derived_from(f, c, pred, depth + 1)
+            r = derived_from(f, c, pred, depth + 1, vsteps)
+            if r:
+                return r
+    if e["k"] == "CallExpr" and (f.decl(e) or {}).get("n") in WRAPPERS:
+        for c in call_args(e):
+            r = derived_from(f, c, pred, depth + 1, vsteps)
             if r:
                 return r
     if e["k"] == "MemberExpr" and e.get("c"):
-        return derived_from(f, e["c"][0], pred, depth + 1)
-    if e["k"] == "DeclRefExpr" and depth < 2:
+        return derived_from(f, e["c"][0], pred, depth + 1, vsteps)
+    if e["k"] == "CXXOperatorCallExpr" and e.get("op") in ("->", "*") and len(e.get("c", [])) == 2:
+        return derived_from(f, e["c"][1], pred, depth + 1, vsteps)
+    if e["k"] == "DeclRefExpr" and vsteps < 2:
         for rhs in local_defs(f).get(e.get("d"), []):
-            r = derived_from(f, rhs, pred, depth + 2)
+            if isinstance(rhs, tuple):
+                if pred({"n": "<xml-out-param>", "q": ""}):
+                    return rhs[1]
+                continue
+            r = derived_from(f, rhs, pred, depth + 1, vsteps + 1)
             if r:
                 return r
     return None
 
 
-def run(ctx, P, funcs, prop, producers=None, accessors=None, rule="R-INASSERT"):
+def run(ctx, P, funcs, prop, producers=None, accessors=None, rule="R-INASSERT", undecided=None):
+    """undecided: {entity: reason} - sites the one-step slice classifies as input-derived but for which no
+    failing input could be constructed; they are neither reported nor claimed (listed in the evidence notes)."""
     producers = producers or (lambda d: False)
     accessors = accessors or (lambda d: False)
+    undecided = undecided or {}
+    real_ob = ctx.ob
+
+    def ob(rule_, ent, ok, loc="", detail=""):
+        base = ent.split(" #")[0]
+        if not ok and base in undecided:
+            ctx.note("%s %s at %s: classified input-derived but not replayable - not decided (%s)" % (
+                rule_, ent, loc, undecided[base]))
+            return True
+        return real_ob(rule_, ent, ok, loc, detail)
+    ctx = _Proxy(ctx, ob)
     n_sites = n_input = 0
     for f in sorted(funcs, key=lambda x: (x.file, x.l0)):
         if f.dep or f.cfg() is None:
@@ -112,14 +157,14 @@ def run(ctx, P, funcs, prop, producers=None, accessors=None, rule="R-INASSERT"):
         for site, cond, kind in sites:
             n_sites += 1
             if cond is None:
-                r = classify_abort(f, site, accessors)
+                r = classify_abort(f, site, accessors, producers)
                 if r:
                     n_input += 1
-                    ent = "%s: %s after unmatched %s" % (short(f), kind, r)
+                    ent = "%s: %s() reached on input-dependent condition over %s" % (short(f), kind, r.split(" (")[0])
                     ent += occurrence_tag(seen, ent)
                     ctx.ob(rule, ent, False, f.loc(site),
-                           "%s() is the fall-through arm of a chain of comparisons of `%s`, a value taken from the "
-                           "input: an unknown keyword aborts the process" % (kind, r))
+                           "%s() is guarded only by a condition over `%s`: input chooses whether the process aborts"
+                           % (kind, r))
                 continue
             for a in atoms(f, cond):
                 # ---- null form
@@ -127,7 +172,7 @@ def run(ctx, P, funcs, prop, producers=None, accessors=None, rule="R-INASSERT"):
                 nn_keys = [k for t, k in facts_needed if t == "nn"]
                 src = None
                 for x in walk(a):
-                    if x["k"] in ("DeclRefExpr", "CallExpr", "CXXMemberCallExpr"):
+                    if x["k"] in ("DeclRefExpr", "CallExpr", "CXXMemberCallExpr") and ptr_key(f, x) in nn_keys:
                         src = derived_from(f, x, producers)
                         if src:
                             break
@@ -165,9 +210,23 @@ def run(ctx, P, funcs, prop, producers=None, accessors=None, rule="R-INASSERT"):
     return n_sites, n_input
 
 
+class _Proxy(object):
+    def __init__(self, ctx, ob):
+        self._ctx, self.ob = ctx, ob
+
+    def __getattr__(self, k):
+        return getattr(self._ctx, k)
+
+
 def established(f, site, atom):
-    """the same condition text is tested by a dominating branch whose failing arm leaves (returns)"""
+    """the same condition text is tested by a dominating branch whose failing arm leaves (returns),
+    or asserted by an earlier assertion of the same function"""
     want = expr_str(f, atom)
+    for s2, c2, k2 in assertion_sites(f):
+        if s2["i"] == site["i"]:
+            break
+        if c2 is not None and any(expr_str(f, a) == want for a in atoms(f, c2)) and _dominates_simple(f, s2, site):
+            return True
     for anc in f.ancestors(site):
         if anc["k"] == "IfStmt":
             c = anc["c"][0]
@@ -193,29 +252,71 @@ def established(f, site, atom):
     return False
 
 
-def classify_abort(f, site, accessors):
-    """if the abort is the final else of `if (v == "a") .. else if (v == "b") .. else abort()`, or the
-    default arm of a switch, over an input-derived value: return the name of that value"""
+def classify_abort(f, site, accessors, producers=None):
+    """The abort() is input-controlled when the conditions that lead to it (the enclosing if / else-if
+    chain) test a value that derives from an input accessor or from a nullable producer applied to
+    input.  Returns a short description of that condition, or None."""
     prev = site
+    conds = []
     for anc in f.ancestors(site):
-        if anc["k"] == "IfStmt" and anc["c"][2] is not None and _contains(anc["c"][2], prev):
-            # walk up the else-if chain
-            cond = anc["c"][0]
-            for x in walk(cond):
-                if x["k"] == "DeclRefExpr" and (f.decl(x) or {}).get("k") in ("Var", "ParmVar"):
-                    if derived_from(f, x, accessors):
-                        return expr_str(f, x)
-                    d = f.decl(x)
-                    if d["k"] == "ParmVar" and _is_string_type(f.unit.type(d.get("t"))) and \
-                            any(y["k"] == "StringLiteral" for y in walk(cond)):
-                        return expr_str(f, x)
-            prev = anc
-            continue
+        if anc["k"] == "IfStmt":
+            conds.append(anc["c"][0])
+            # continue upwards only through an else-if chain
+            p = f.parent(anc)
+            if p is not None and p["k"] == "IfStmt" and p["c"][2] is not None and p["c"][2]["i"] == anc["i"]:
+                prev = anc
+                continue
+            break
         if anc["k"] in ("CompoundStmt",):
             prev = anc
             continue
+        if anc["k"] in ("DefaultStmt", "CaseStmt", "SwitchStmt"):
+            if anc["k"] == "SwitchStmt":
+                conds.append(anc["c"][0])
+                break
+            prev = anc
+            continue
         break
+    for cond in conds:
+        for x in walk(cond):
+            if x["k"] in ("DeclRefExpr", "CallExpr", "CXXMemberCallExpr"):
+                d = f.decl(x)
+                if x["k"] == "DeclRefExpr" and (d or {}).get("k") not in ("Var", "ParmVar"):
+                    continue
+                r = derived_from(f, x, accessors) or (producers and derived_from(f, x, producers))
+                if r:
+                    return "%s (from %s)" % (expr_str(f, x), r)
+                if x["k"] == "DeclRefExpr" and d["k"] == "ParmVar" and _is_string_type(f.unit.type(d.get("t"))) and \
+                        any(y["k"] == "StringLiteral" for y in walk(cond)):
+                    return "%s (string parameter compared with keywords)" % expr_str(f, x)
     return None
+
+
+def _dominates_simple(f, early, late):
+    """early is a statement of a compound statement that encloses late and precedes it"""
+    chain = {x["i"] for x in [late] + list(f.ancestors(late))}
+    # the assertion statement is the outermost node expanded from the assertion macro
+    for anc in f.ancestors(early):
+        if f.macro(anc) in ASSERT_MACROS and anc["k"] != "FunctionBody":
+            early = anc
+        else:
+            break
+    prev = early
+    for anc in f.ancestors(early):
+        if anc["k"] == "CompoundStmt":
+            seen_prev = False
+            for s in anc.get("c", []):
+                if s is None:
+                    continue
+                if s["i"] == prev["i"]:
+                    seen_prev = True
+                elif seen_prev and s["i"] in chain:
+                    return True
+            return False
+        if anc["k"] in ("IfStmt", "ForStmt", "WhileStmt", "SwitchStmt", "CXXForRangeStmt", "DoStmt"):
+            return False
+        prev = anc
+    return False
 
 
 def _contains(root, node):
